@@ -363,6 +363,48 @@ def install(ex):
             ex.violation('leak', 'heap-leak', 'library heap blocks still allocated: %d (allowed %d), sites %s'
                          % (len(live), allowed, sites))
 
+    @reg('sx_leak_check_unreachable')
+    def _sx_leak_unreach(ex, fr, a, d):
+        """violation if a live heap block allocated by library code can no longer be reached from any global,
+        stack slot or register of any thread (conservative scan: every concrete 64-bit cell or register whose
+        upper half names a live object counts as a reference, interior pointers included)"""
+        st = ex.st
+        objs = st.objs
+        marked = set()
+        work = []
+
+        def ref(v):
+            if isinstance(v, int) and v > 0xffffffff:
+                oid = v >> 32
+                if oid not in marked:
+                    o = objs.get(oid)
+                    if o is not None and o.alive:
+                        marked.add(oid)
+                        work.append(o)
+
+        for o in objs.values():
+            if o.alive and o.kind != 'heap' and o.id not in marked:
+                marked.add(o.id)
+                work.append(o)
+        for th in st.threads:
+            if th is None:
+                continue
+            for f in th.frames:
+                for v in f.regs:
+                    ref(v)
+        while work:
+            o = work.pop()
+            for cell in o.data.values():
+                v = cell[1] if isinstance(cell, tuple) else cell
+                ref(v)
+        lost = [o for o in objs.values() if o.kind == 'heap' and o.alive and o.lib and o.id not in marked]
+        ex.st.oracles += 1
+        ex.stats.oracle_concrete += 1
+        if lost:
+            sites = sorted(set(str(o.site) for o in lost))
+            ex.violation('leak', 'heap-leak', 'library heap blocks no longer reachable from anywhere: %d, allocated at %s'
+                         % (len(lost), sites))
+
     @reg('sx_opt')
     def _sx_opt(ex, fr, a, d):
         """harness parameter from the command line: sx_opt("name", default)"""
